@@ -423,7 +423,12 @@ func (ip *Interp) chanRecv(ch *ChanObj) (Value, bool) {
 		g.regs = []*chanReg{r}
 		ch.recvq2 = append(ch.recvq2, r)
 	}
-	ip.block(func() bool { return g.completed != nil }, "chan receive")
+	isEnv := ch != nil && ch.env
+	ip.block(func() bool { return g.completed != nil || (isEnv && ip.conc.envTicks > 0) }, "chan receive")
+	if g.completed == nil {
+		ip.conc.envTicks--
+		return ip.zero(ch.elemT), true
+	}
 	return g.recvVal, g.recvOk
 }
 
@@ -524,8 +529,13 @@ func (ip *Interp) selectOp(fr *Frame, x *ssa.Select) Value {
 			a.ch.recvq2 = append(a.ch.recvq2, r)
 		}
 	}
-	_ = envArm
-	ip.block(func() bool { return g.completed != nil }, "select")
+	ip.block(func() bool { return g.completed != nil || (envArm >= 0 && ip.conc.envTicks > 0) }, "select")
+	if g.completed == nil {
+		// woken by an environment event (ticker / time.After) that became available
+		ip.unregister(g)
+		ip.conc.envTicks--
+		return result(envArm, ip.zero(arms[envArm].ch.elemT), true)
+	}
 	r := g.completed
 	if r.send {
 		if g.sendPanic {
